@@ -206,8 +206,27 @@ func fromEntry(ctx context.Context, services coreiface.CoreAPI, sourceEntries []
 		sliced = uniques
 	}
 
+	// Put the source entries that did not make it into the capped list back in
+	// front, making room for them by dropping the oldest entries that are not
+	// source entries themselves (dropping blindly from the front could drop
+	// another source entry).
 	missingSourceEntries := entry.Difference(sliced, sourceEntries)
-	result := append(missingSourceEntries, entrySliceRange(sliced, len(missingSourceEntries), len(sliced))...)
+
+	isSource := map[string]struct{}{}
+	for _, e := range sourceEntries {
+		isSource[e.GetHash().String()] = struct{}{}
+	}
+
+	toDrop := len(missingSourceEntries)
+	result := missingSourceEntries
+	for _, e := range sliced {
+		if _, ok := isSource[e.GetHash().String()]; toDrop > 0 && !ok {
+			toDrop--
+			continue
+		}
+
+		result = append(result, e)
+	}
 
 	return &Snapshot{
 		ID:     result[len(result)-1].GetLogID(),
